@@ -327,3 +327,20 @@ pub fn cmd_open(a: &[&str]) -> String {
         r2.unwrap_or_else(|p| format!("panic {}", crate::panic_msg(&p))).replace(' ', "_")
     )
 }
+
+/// recreate <hex bytes>: ShmWriter::new over a file with the given (unusable) content; prints the file afterwards
+pub fn cmd_recreate(a: &[&str]) -> String {
+    let path = tmp_path("rc");
+    let hex = a.get(0).copied().unwrap_or("");
+    let bytes: Vec<u8> = (0..hex.len() / 2).map(|i| u8::from_str_radix(&hex[2 * i..2 * i + 2], 16).unwrap_or(0)).collect();
+    write_file(&path, &bytes);
+    let r = std::panic::catch_unwind(|| ShmWriter::new(std::path::Path::new(&path)).map(|_| ()));
+    let after = std::fs::read(&path).unwrap_or_default();
+    let _ = std::fs::remove_file(&path);
+    let hexs: String = after.iter().map(|b| format!("{:02x}", b)).collect();
+    match r {
+        Ok(Ok(())) => format!("ok len={} bytes={}", after.len(), hexs),
+        Ok(Err(e)) => format!("err {}", e).replace(' ', "_"),
+        Err(p) => format!("panic {}", crate::panic_msg(&p)),
+    }
+}
